@@ -121,6 +121,15 @@ func checkC07(r *harness.Run) harness.Coverage {
 		}
 	}
 	run(filterExprs, arrDocs)
+	// (4b) conditions that are themselves projections: the condition's VALUE decides (a filter projection whose
+	// matches all project to null is the empty list, hence false-like, however many elements matched on the way)
+	var projConds []exprCase
+	for _, cond := range []string{"b[?@]", "b[?@].zz", "b[?c].d", "b[?@ == `null`]", "b[*]", "b[*].zz", "b[]", "b[?!@]", "b.*", "b[::-1]", "b[1:]", "b[?@].zz || `false`", "b[?c].d && `true`", "b[?c]", "b[*].c", "b[?c == `true`].d", "b[0]", "b[?c][0]", "b[?c] | [0]", "b[?d > `0`].c", "b[].c", "b[?@ != `null`]"} {
+		projConds = append(projConds, exprFromText("[?"+cond+"]"), exprFromText("[?"+cond+"].k"), exprFromText("[?!("+cond+")].k"), exprFromText("map(&!("+cond+"), @)"), exprFromText("map(&("+cond+" || 'f'), @)"), exprFromText("map(&("+cond+" && 't'), @)"), exprFromText("l[?"+cond+"].k"))
+	}
+	elems := `{"b":[{"c":true,"d":1},{"c":true}],"k":0}, {"b":[{"c":true}],"k":1}, {"b":[null,0,{"zz":null}],"k":2}, {"b":[],"k":3}, {"b":[null],"k":4}, {"b":[[]],"k":5}, {"b":{"x":null},"k":6}, {"b":{"x":1},"k":7}, {"k":8}, {"b":[{"c":false,"d":1},{"d":2}],"k":9}, {"b":[{"c":true,"d":null},{"c":1,"d":0}],"k":10}, {"b":"s","k":11}, {"b":[false],"k":12}`
+	run(projConds, univ.Js(`[`+elems+`]`, `{"l":[`+elems+`]}`, `[]`))
+	r.Note("projection_valued_conditions", len(projConds))
 	// (5) operands that are COMPUTED (function results, projections, slices, multi-selects) rather than read
 	// from the document or a literal: an empty result must compare equal to `[]` / `{}` and be false-like
 	// whichever way the implementation happened to allocate it
